@@ -124,6 +124,12 @@ impl ChunkSerializer {
             iteration = iteration + 1;
         }
 
+        // A message without any payload still needs a (header only) chunk, otherwise the
+        // message never reaches the peer.
+        if slices.is_empty() {
+            slices.push(&message.data[0..0]);
+        }
+
         for (idx, slice) in slices.into_iter().enumerate() {
             self.add_chunk(
                 &mut bytes,
